@@ -2,6 +2,7 @@ package props
 
 import (
 	"math/rand"
+	"strconv"
 	"strings"
 
 	"github.com/evanphx/json-patch/v5/verifharness/gen"
@@ -36,6 +37,9 @@ type SeqCase struct {
 	Ops     []ref.Op
 	OpTexts []string
 	Opts    ref.Opts
+	// CopySizes, if non-nil, overrides the reference sizes of the accounted
+	// copies (lo, hi per copy; hi < 0 = unknown). See outputSpellingSizes.
+	CopySizes [][2]int
 }
 
 func (s *SeqCase) Patch() string { return PatchText(s.OpTexts) }
@@ -168,3 +172,101 @@ func opsSummary(ops []ref.Op) string {
 	}
 	return strings.Join(k, ",")
 }
+
+// GenMotionSeq generates "relocation chains": every operation is applicable
+// and values that were copied, moved or added earlier are copied and moved
+// again, into and out of each other (copy X to Y then move Y beneath X, move a
+// container beneath a copy of itself, copy the root into itself, ...). Any
+// sharing of nodes between two locations of the live tree - which no single
+// operation reveals - turns into a wrong value or a cycle under such chains.
+func GenMotionSeq(r *rand.Rand, prof *gen.Profile, o ref.Opts, maxOps int, rootOK bool) *SeqCase {
+	sc := &SeqCase{Opts: o}
+	sc.DocText = prof.Root(r)
+	sc.Doc = mustParse(sc.DocText)
+	e := ref.New(sc.Doc, o)
+	var hot []string
+	n := 2 + r.Intn(maxOps-1)
+	fresh := 0
+	for tries := 0; len(sc.Ops) < n && tries < 6*n; tries++ {
+		res, _ := gen.Pointers(e.Root)
+		pick := func() string {
+			if len(hot) > 0 && r.Intn(3) > 0 {
+				h := hot[r.Intn(len(hot))]
+				if valueAt(e, h) != nil {
+					return h
+				}
+			}
+			return res[r.Intn(len(res))]
+		}
+		beneath := func(t string) string {
+			// a location below t if t is a container, t itself otherwise
+			v := valueAt(e, t)
+			if v == nil {
+				return t
+			}
+			switch v.K {
+			case jr.Obj:
+				if len(v.Keys) > 0 && r.Intn(4) == 0 {
+					return t + "/" + jr.EncTok(v.Keys[r.Intn(len(v.Keys))])
+				}
+				fresh++
+				return t + "/n" + itoa(fresh)
+			case jr.Arr:
+				switch r.Intn(3) {
+				case 0:
+					return t + "/-"
+				case 1:
+					return t + "/0"
+				}
+				return t + "/" + itoa(len(v.A))
+			}
+			return t
+		}
+		var op ref.Op
+		valText := ""
+		switch k := r.Intn(10); {
+		case k < 4:
+			op = ref.Op{Kind: "copy", From: pick(), Path: beneath(pick())}
+			if rootOK && r.Intn(8) == 0 {
+				op.From = ""
+			}
+		case k < 8:
+			op = ref.Op{Kind: "move", From: pick(), Path: beneath(pick())}
+		case k < 9:
+			valText = []string{`{}`, `[]`, `{"k":{"l":[1]}}`, `[[],{}]`, `null`, `1`}[r.Intn(6)]
+			op = ref.Op{Kind: "add", Path: beneath(pick()), Value: mustParse(valText), HasValue: true}
+		default:
+			t := pick()
+			if cur := valueAt(e, t); cur != nil {
+				valText = cur.String()
+				op = ref.Op{Kind: "test", Path: t, Value: mustParse(valText), HasValue: true}
+			} else {
+				continue
+			}
+		}
+		if op.Path == "" || (op.Kind != "copy" && op.Kind != "add" && op.Kind != "test" && op.From == "") {
+			continue
+		}
+		snap := e.Root.Clone()
+		savedOOD := e.OOD
+		if c := e.Step(op); c != ref.OK || e.OOD != savedOOD {
+			e.Root = snap
+			e.OOD = savedOOD
+			continue
+		}
+		sc.Ops = append(sc.Ops, op)
+		sc.OpTexts = append(sc.OpTexts, OpText(op.Kind, op.Path, op.From, valText, op.HasValue))
+		if op.Kind != "test" {
+			hot = append(hot, op.Path)
+			if op.Kind == "copy" && op.From != "" {
+				hot = append(hot, op.From)
+			}
+			if i := strings.LastIndex(op.Path, "/"); i > 0 {
+				hot = append(hot, op.Path[:i])
+			}
+		}
+	}
+	return sc
+}
+
+func itoa(i int) string { return strconv.Itoa(i) }
